@@ -172,7 +172,7 @@ theorem topsisQ_degenerate_weight_scale [NeZero m] [NeZero n] (μ : Metric) (A :
   have hW : weighted A (fun j => c * w j) i = fun j => c * weighted A w i j := by rw [weighted_scale]
   simp only [hI, hA, hW, distQ_scale μ hc.le, ← mul_add]
   have hk : (if μ = .cityblock ∨ μ = .chebyshev then c else c * c) ≠ 0 := by split <;> positivity
-  exact mul_eq_zero_iff_left hk |>.trans Iff.rfl |> fun h => by simpa [hk] using h
+  rw [mul_eq_zero]; simp only [hk, false_or]
 end scale
 
 /-- TOPSIS over `ℝ`, every metric (Euclidean: `sqrt (c²·S) = c·sqrt S`) -/
@@ -310,9 +310,8 @@ theorem fmf_rank_weight_scale (A : Mat m n ℝ) (o : Vec n Obj) (w : Vec n ℝ) 
     from funext (fmf_weight_scale A o w hAw hc)]
   exact rank_add_const _ true _
 
-/-- criteria in another order: the scores are equal (section 2), hence so is every ranking -/
-theorem rank_col_perm {α : Type} [Field α] [LinearOrder α] [IsStrictOrderedRing α] (rev : Bool) (s s' : Fin m → α)
-    (h : s' = s) : rankVec rev s' = rankVec rev s := by rw [h]
+/-! criteria in another order: the score vectors are *equal* (section 2), so every ranking computed from
+them is equal too — there is nothing further to state. -/
 
 /-! ## 5. MultiMOORA: rank matrix and pairwise-dominance score -/
 
